@@ -205,7 +205,8 @@ MATCHERS = {"backtick_content_trailing_odd_backslashes": _m_backslash}
 
 
 # ------------------------------------------------------------------ python normalisation (PyNorm.tla)
-EXOTIC = ["\u00b5g", "\ufb01eld", "x\u00b2", "\u2460", "\u00aa", "\U0001d431", "\u00e9", "\u53d8\u91cf"]
+EXOTIC = ["\u00b5g", "\ufb01eld", "x\u00b2", "\u2460", "\u00aa", "\U0001d431", "\u00e9", "\u53d8\u91cf",
+          "e\u0301t\u0065\u0301", "\u0301a", "A\u030a", "x_\u0301"]        # decomposed sequences: stable character by character, composed by Python as a whole
 # further realisations of the model's class 'quoted name holding a backslash' (MC_PyNorm has a\b, a\\b, x\1, a\+b; variant "template" of
 # PyNorm.tla is the design error they refute): what follows the backslash is, to a regex replacement template, a control character (t),
 # a bad escape (d), a numbered / named group (1, g<0>), an octal code (0) - to the property it is a character of a column name
